@@ -105,6 +105,23 @@ claimed["C14"] = dict(
          "ErrNotSupported, helper outputs, Redirect code range, and A/B equality across capability variants.",
     design="5 C14", technique="bounded symbolic execution of go/ssa + SMT (z3, QF_BV) against ghost-state oracle in the environment stub; A/B across variants; native replay")
 
+claimed["C15"] = dict(
+    text="Bounded symbolic execution of the real recovery middleware (recovery, connIsBroken, request dump redaction loop, "
+         "DefaultHandleRecovery) through ServeHTTP: every panic value kind x response progress x handler kind: escapes iff "
+         "http.ErrAbortHandler (same value), 500 iff nothing written and not a broken connection, otherwise response "
+         "untouched; one ERROR record naming route, parameters and request line; afterwards routes unchanged, requests "
+         "served, writer lock free. Redaction: the header name is a symbolic byte string constrained byte-wise to a case "
+         "variant of each credential header, so all 2^n spellings are decided by the solver at once. Panics inside managed "
+         "transactions are decided by C04.",
+    design="5 C15", technique="bounded symbolic execution of go/ssa + SMT (z3, QF_BV) with a case-variant constraint over header-name bytes; native replay")
+claimed["C20"] = dict(
+    text="Bounded symbolic execution of the real Logger middleware (LoggerWithHandler, level, roundLatency, Context.ClientIP / "
+         "RemoteIP) through ServeHTTP for every status code 100..999 (solver), implicit 200, redirects with and without "
+         "Location, no write and panic, in five handler kinds and four resolver configurations: exactly one record after "
+         "the handler, level by status class, status/method/host/path attributes, location rule, message rule; and A/B "
+         "against the same router without the middleware (identical status, headers, bytes, panic value).",
+    design="5 C20", technique=T)
+
 reasons = {}
 
 ids = [json.loads(l)["id"] for l in open("/verif/properties.jsonl")]
